@@ -249,7 +249,35 @@ def pred_gaol_div_rel_M(line):
         return False
 
 
-PREDICATES = {"gaol_div_rel_M": pred_gaol_div_rel_M}
+def pred_ctckeep_libm(line):
+    """ctckeep line whose constraints contain a libm-based hyperbolic function of gaol (4th token) and where the planted point is
+    lost by a hair: the output is empty or misses the point by at most 1024 floats in every component (a wrong contraction step
+    removes far more; those are still reported)"""
+    import struct
+    try:
+        lhs, out = line.split(" => ")
+        t = lhs.split(" ")
+        if t[0] != "ctckeep" or len(t) != 5 or t[4] == "-":
+            return False
+        if out.strip() == "E":
+            return True
+        def dbl(h): return struct.unpack(">d", bytes.fromhex(h))[0]
+        def ordv(h):
+            i = int(h, 16)
+            return -(i & 0x7fffffffffffffff) if i >> 63 else i
+        pt = t[3].split(";"); comps = out.strip().split(";")
+        if len(pt) != len(comps): return False
+        for ph, c in zip(pt, comps):
+            if c == "E": return True
+            lo, hi = c.split(":")
+            if dbl(lo) <= dbl(ph) <= dbl(hi): continue
+            gap = min(abs(ordv(ph) - ordv(lo)), abs(ordv(ph) - ordv(hi)))
+            if gap > 1024: return False
+        return True
+    except Exception:
+        return False
+
+PREDICATES = {"gaol_div_rel_M": pred_gaol_div_rel_M, "ctckeep_libm": pred_ctckeep_libm}
 
 
 def match_known(pid, line, known, verdict=""):
@@ -377,6 +405,11 @@ def main():
                         return k
                 return None
             for line, verdict in res:
+                # lines of a shared workload that decide ANOTHER property's statement (e.g. the completeness log of a resumed
+                # search, judged by C05/C18, inside the verdict check C06) are not judged here
+                if w.get("out_of_scope") and re.match(w["out_of_scope"], line):
+                    stats["out_of_scope"] = stats.get("out_of_scope", 0) + 1
+                    continue
                 stats["evaluations"] += 1
                 op = line.split(" ", 1)[0]
                 _t = verdict.split(" ")
